@@ -10,7 +10,11 @@ tvars == <<lvars, l, bufmap>>
 
 Ev == Rec[l]
 Item(cls, what) == [cls |-> cls, what |-> what, l |-> l, event |-> Rec[l],
-                    expected |-> [resp |-> resp', result |-> result']]
+                    expected |-> [resp |-> resp', result |-> result'],
+                    task |-> IF "t" \in DOMAIN Rec[l] /\ Live(Rec[l].t)
+                             THEN [root |-> tasks[Rec[l].t].root,
+                                   files |-> [p \in DOMAIN tasks[Rec[l].t].files |-> tasks[Rec[l].t].files[p]]]
+                             ELSE [root |-> <<>>]]
 
 (* --- observation vs. specification ------------------------------------ *)
 RetOk(e) ==
